@@ -91,17 +91,17 @@ theorem collect_nodup (valid : Bytes → Bool) (t n : Nat) (l : List Bytes) :
           · cases h; exact ⟨hn', hb''⟩
           · exact ih _ _ hn' hb'' h
 
-theorem recoverCommit_nodup (t n : Nat) (idxs : List Nat) (hn : idxs.Nodup) : (recoverCommit t n idxs).isPanic = false := by
+theorem recoverCommit_total (t n : Nat) (idxs : List Nat) : (recoverCommit Cfg.all t n idxs).isPanic = false := by
   unfold recoverCommit
-  have : (idxs.filter (· < n)).Nodup := hn.filter _
-  simp only [this, decide_true, Bool.not_true, Bool.false_eq_true, if_false]
+  have : Cfg.all.rcDedup = true := rfl
+  simp only [this, if_true]
   split <;> rfl
 
 theorem tblsRecover_total (valid : Bytes → Bool) (t n : Nat) (sigs : List Bytes) : (tblsRecover Cfg.all valid t n sigs).isPanic = false := by
   unfold tblsRecover
   cases h : collect Cfg.all valid t n (uniq sigs []) [] with
   | error o => exact collect_total valid t n _ _ o h
-  | ok idxs => exact recoverCommit_nodup t n idxs (collect_nodup valid t n _ [] idxs List.nodup_nil (by simp) h).1
+  | ok idxs => exact recoverCommit_total t n idxs
 
 theorem rsStep_total (valid : Bytes → Bytes → Bool) (t n : Nat) (st : RsSt) (m : Option Sign) (ha : st.alive = true) :
     (rsStep Cfg.all valid t n st m).1.alive = true ∧ (rsStep Cfg.all valid t n st m).2.isPanic = false := by
